@@ -210,6 +210,20 @@ pub struct ReplayFile {
     /// which build of the simulator produced the file: "default-features" or "self_remove_proposal"
     #[serde(default)]
     pub build: String,
+    /// C14: the violation is a disagreement on this primitive call (the replay evaluates the call, not the history:
+    /// the key material in it came from a provider's own random generator)
+    #[serde(default)]
+    pub prim: Option<PrimCase>,
+}
+
+/// a disagreement between two providers on one primitive call, with everything needed to evaluate it again
+#[derive(Clone, Debug, Serialize, Deserialize, PartialEq, Eq)]
+pub struct PrimCase {
+    pub op: String,
+    pub suite: u16,
+    pub primary: String,
+    pub cross: String,
+    pub args: Vec<String>,
 }
 
 pub const BUILD: &str = if cfg!(feature = "self_remove") { "self_remove_proposal" } else { "default-features" };
